@@ -588,12 +588,17 @@ Proof.
     intros s0 H0. exact (older_trans _ _ _ H0 OS).
 Qed.
 
-Lemma kb_add_inv s k b : Inv s -> Inv (kb_add s k b).
+Lemma kb_append_inv s k b : Inv s -> Inv (kb_append s k b).
 Proof.
-  intros I. unfold kb_add. destruct (nth_error s k) as [[bs v c1 c2| | | |]|] eqn:Hn; try exact I.
-  destruct (cls (bfilter b)); try exact I;
-    (apply (Inv_step s k _ _ I Hn); [reflexivity|cbn; split; [lia|intros; lia]|intros st; cbn; split; apply cache_ok_nil]).
+  intros I. unfold kb_append. destruct (nth_error s k) as [[bs v c1 c2| | | |]|] eqn:Hn; try exact I.
+  apply (Inv_step s k _ _ I Hn); [reflexivity|cbn; split; [lia|intros; lia]|intros st; cbn; split; apply cache_ok_nil].
 Qed.
+
+Lemma kb_add_inv s k b : Inv s -> Inv (kb_add s k b).
+Proof. intros I. unfold kb_add. destruct (cls (bfilter b)); try exact I; apply kb_append_inv; exact I. Qed.
+
+Lemma kb_addb_inv s k pre arg : Inv s -> Inv (kb_addb s k pre arg).
+Proof. intros I. unfold kb_addb. destruct (cls (bfilter arg)); try exact I; apply kb_append_inv; exact I. Qed.
 
 Lemma kb_remove_inv s k bh h ks : Inv s -> Inv (fst (kb_remove s k bh h ks)).
 Proof.
@@ -645,6 +650,7 @@ Proof. intros H i o Hn c Hc. exact (wf_objs_wfs_from 0 l H i o Hn c Hc). Qed.
 Definition rstep (s : store) (o : rop) : store :=
   match o with
   | RAdd k b => kb_add s k b
+  | RAddB k pre arg => kb_addb s k pre arg
   | RRemoveKeys k ks => fst (kb_remove s k false 0 ks)
   | RRemoveHandler k h => fst (kb_remove s k true h [])
   | RSetDyn d sel => set_dyn s d sel
@@ -654,8 +660,9 @@ Definition rstep (s : store) (o : rop) : store :=
 
 Lemma rstep_inv s o : Inv s -> Inv (rstep s o).
 Proof.
-  intros I. destruct o as [k b|k ks|k h|d sel|w i ks|i]; cbn [rstep].
+  intros I. destruct o as [k b|k pre arg|k ks|k h|d sel|w i ks|i]; cbn [rstep].
   - apply kb_add_inv; exact I.
+  - apply kb_addb_inv; exact I.
   - apply kb_remove_inv; exact I.
   - apply kb_remove_inv; exact I.
   - apply set_dyn_inv; exact I.
@@ -708,21 +715,37 @@ Qed.
 Lemma set_nth_nth_error_same {T} (l : list T) i x y : nth_error l i = Some y -> nth_error (set_nth l i x) i = Some x.
 Proof. intros H. apply set_nth_same. apply nth_error_Some. congruence. Qed.
 
+Lemma denot_after_append s k b bs v c1 c2 :
+  wfs s -> nth_error s k = Some (OKB bs v c1 c2) -> denot (kb_append s k b) k = bs ++ [b].
+Proof.
+  intros W Hn. unfold kb_append. rewrite Hn.
+  rewrite (denot_unfold _ k (OKB (bs ++ [b]) (v + 1) [] [])); [reflexivity| |eapply set_nth_nth_error_same; eauto].
+  eapply wfs_set; eauto.
+Qed.
+
 Theorem denot_after_add s k b bs v c1 c2 :
   wfs s -> nth_error s k = Some (OKB bs v c1 c2) -> cls (bfilter b) <> CNever ->
   denot (kb_add s k b) k = bs ++ [b].
 Proof.
-  intros W Hn NC. unfold kb_add. rewrite Hn.
-  assert (E : denot (set_nth s k (OKB (bs ++ [b]) (v + 1) [] [])) k = bs ++ [b]).
-  { rewrite (denot_unfold _ k (OKB (bs ++ [b]) (v + 1) [] [])); [reflexivity| |eapply set_nth_nth_error_same; eauto].
-    eapply wfs_set; eauto. }
+  intros W Hn NC. unfold kb_add.
+  pose proof (denot_after_append s k b bs v c1 c2 W Hn) as E.
   destruct (cls (bfilter b)); try exact E. congruence.
+Qed.
+
+(* ... also when what is added is a pre-built Binding object *)
+Theorem denot_after_addb s k pre arg bs v c1 c2 :
+  wfs s -> nth_error s k = Some (OKB bs v c1 c2) -> cls (bfilter arg) <> CNever ->
+  denot (kb_addb s k pre arg) k = bs ++ [compose_binding pre arg].
+Proof.
+  intros W Hn NC. unfold kb_addb.
+  pose proof (denot_after_append s k (compose_binding pre arg) bs v c1 c2 W Hn) as E.
+  destruct (cls (bfilter arg)); try exact E. congruence.
 Qed.
 
 (* F12: removing while iterating skips the element after each removed one *)
 Lemma rm_loop_skips : exists m l, fst (rm_loop m l) <> filter (fun b => negb (m b)) l.
 Proof.
   exists (fun b => bhandler b =? 1),
-         [mkbinding [1] FAlways FNever false 1 []; mkbinding [2] FAlways FNever false 1 []].
+         [mkbinding [1] FAlways FNever false 1 [] true 0; mkbinding [2] FAlways FNever false 1 [] true 0].
   cbn. discriminate.
 Qed.
